@@ -107,7 +107,7 @@ let parse_bop toks = match toks with
   | _ -> raise (Bad (String.concat " " toks))
 
 (* a world is a closure: op tokens -> (world, obs, micro-step machine agrees?)
-   For the Mutex and the Semaphore the poll-granular model runs in lockstep with the micro-step machine of
+   For the Mutex, the Semaphore and the Barrier the poll-granular model runs in lockstep with the micro-step machine of
    coq/Sched/*EvSched.v executed without interleaving (coq/Sched/*EvSolo.v); the flag says whether the two states
    still correspond after the operation. *)
 type world = W of (string list -> world * obs * bool)
@@ -115,14 +115,14 @@ let rec mk_m x = W (fun t -> let ((x', o), ok) = mstep2 true x (parse_mop t) in 
 let rec mk_s x = W (fun t -> let ((x', o), ok) = sstep2 true x (parse_sop t) in (mk_s x', o, ok))
 let rec mk_r x = W (fun t -> let (x', o) = rstep x (parse_rop t) in (mk_r x', o, true))
 let rec mk_o x = W (fun t -> let (x', o) = ostep x (parse_oop t) in (mk_o x', o, true))
-let rec mk_b x = W (fun t -> let (x', o) = bstep x (parse_bop t) in (mk_b x', o, true))
+let rec mk_b x = W (fun t -> let ((x', o), ok) = bstep2 x (parse_bop t) in (mk_b x', o, ok))
 
 let init_world toks = match toks with
   | ["mutex"] -> mk_m mw2_init
   | ["sem"; n] -> mk_s (sw2_init (n_of_string n))
   | ["rw"] -> mk_r rw0
   | ["once"] -> mk_o ow0
-  | ["bar"; n] -> mk_b (bw_init (n_of_string n))
+  | ["bar"; n] -> mk_b (bw2_init (n_of_string n))
   | _ -> raise (Bad ("header " ^ String.concat " " toks))
 
 let split_ws s = List.filter (fun x -> x <> "") (String.split_on_char ' ' (String.trim s))
